@@ -400,7 +400,7 @@ func checkC05(c *h.Check) {
 	c.Coverage["unordered_kind_pairs_covered"] = len(pairs)
 	c.Coverage["explorer"] = map[string]interface{}{"executions": st.Executions, "skipped": st.Skipped, "mode": "full product"}
 	c.Coverage["rule"] = "ordered pairs over 10 source kinds (func, struct value, struct pointer, value, interface value, binding, field, pointer-to-field, injector parameter, same set twice) x 6 placements x 5 contested type kinds (named, pointer, alias vs. original, []T written twice, interface) x 2 argument orders; inexpressible combinations skipped by the renderer; plus one set reached by its own name and through an aliasing variable, one wire.FieldsOf call listing several fields of identical type, and a conflict inside a set of another package used by two identical root packages of one invocation (both must be rejected alike). Every program must be rejected with a 'multiple bindings' diagnostic naming the contested type and must not produce output. Distinct = distinct rendered source."
-	if len(cases) > 0 {
+	if len(cases) > 0 && len(results) == len(cases) {
 		i := len(cases) / 3
 		c.Samples = append(c.Samples, map[string]interface{}{"case": cases[i].ID, "wire.go": cases[i].Files["wire.go"], "diagnostics": results[i].Root().Diags})
 	}
